@@ -814,7 +814,7 @@ fn main() {
     // ---- leg 6: the backpressure queue keyed by ReconKey
     {
         let t0 = Instant::now();
-        let kq = ctx.tier.pick(4usize, 8usize);
+        let kq = ctx.tier.pick(3usize, 6usize);
         #[derive(Clone, Copy)]
         enum U {
             Within(u32, u32),
